@@ -13,6 +13,9 @@ import mir_eval
 import suites as SU
 
 PID = "C04"
+# mir_eval.key is also REGENERATED from the source (translate/scalars.py); Props/C04_KeyGen.lean proves the generated
+# definitions equal to the hand-written key model
+TRANSLATOR_PARTS = ["scalars_key"]
 _here = os.path.dirname(os.path.abspath(__file__))
 _props = os.path.join(os.path.dirname(os.path.dirname(_here)), "lean", "MirProofs", "Props")
 LEAN_MODULES = sorted("MirProofs.Props." + os.path.basename(f)[:-5]
@@ -81,6 +84,42 @@ def gen_defaults(rng, tier, shard, nshards, boost):
         if i % nshards == shard:
             yield {"module": mod, "function": fn}
 
+
+def suite_gen_key(rng, tier, shard, nshards):
+    """mir_eval.key as REGENERATED from the source (driver op `gen.scalar`, lean/MirGen/Scalars.lean) vs the real
+    functions: key pairs (quick: a sample + every related pair class; thorough: all ordered pairs), malformed keys"""
+    import chordlabels as cl
+    from props import c09
+    keys = cl.all_keys()
+    pairs = []
+    if tier == "thorough":
+        pairs = [(r, e) for r in keys for e in keys]
+    else:
+        for _ in range(1500):
+            pairs.append((keys[rng.randrange(len(keys))], keys[rng.randrange(len(keys))]))
+    bad = c09.KEY_STRINGS_BAD
+    for b in bad:
+        pairs.append((b, keys[rng.randrange(len(keys))]))
+        pairs.append((keys[rng.randrange(len(keys))], b))
+    for i, (r, e) in enumerate(pairs):
+        if i % nshards != shard:
+            continue
+        yield Case("gen.scalar", ["key.weighted_score", r, e], lambda r=r, e=e: mir_eval.key.weighted_score(r, e),
+                   tag="gen weighted_score", info={"ref": r, "est": e})
+    singles = list(bad) + [keys[rng.randrange(len(keys))] for _ in range(40)] + ["X", "x"]
+    for i, k in enumerate(singles):
+        if i % nshards != shard:
+            continue
+        yield Case("gen.scalar", ["key.validate_key", k], lambda k=k: mir_eval.key.validate_key(k),
+                   tag="gen validate_key", info={"key": k})
+        yield Case("gen.scalar", ["key.split_key_string", k], lambda k=k: mir_eval.key.split_key_string(k),
+                   tag="gen split_key_string", info={"key": k})
+        yield Case("gen.scalar", ["key.validate", k, "C major"], lambda k=k: mir_eval.key.validate(k, "C major"),
+                   tag="gen validate", info={"key": k})
+
+
+from core import Case  # noqa: E402
+SUITES["gen_scalar.key"] = suite_gen_key
 
 CHECKERS = {"documented_defaults": check_defaults}
 ORACLES = {"documented_defaults": gen_defaults}
